@@ -29,13 +29,18 @@ if [ -n "$F" ]; then
 fi
 TESTNAME=$(grep -o "func Test[A-Za-z0-9_]*" $SRC/demo_test.go | head -1 | sed 's/func //')
 PAT="Test${P}M${M#m}"
-cp $SRC/demo_test.go router/zz_seeded_demo_test.go
-unshare -n sh -c "ip link set lo up; go test -vet=off -count=1 -timeout 10m -run '$PAT' ./router/ 2>&1" >/tmp/mutconf/$P-$M.with.log
+DIR=$(head -3 $SRC/demo_test.go | grep -o "Copy into: *[a-z/]*" | head -1 | sed 's/Copy into: *//; s#/$##')
+[ -z "$DIR" ] && DIR=router
+[ -d "$DIR" ] || DIR=router
+echo "$DIR" > /tmp/mutconf/$P-$M.dir
+cp $SRC/demo_test.go $DIR/zz_seeded_demo_test.go
+unshare -n sh -c "ip link set lo up; go test -vet=off -count=1 -timeout 10m -run '$PAT' ./$DIR/ 2>&1" >/tmp/mutconf/$P-$M.with.log
 if grep -q "^ok" /tmp/mutconf/$P-$M.with.log; then WITH=pass; else WITH=fail; fi
-git diff -- . ':(exclude)router/zz_seeded_demo_test.go' > /tmp/mutconf/$P-$M.patch
+rm -f $DIR/zz_seeded_demo_test.go
+git diff > /tmp/mutconf/$P-$M.patch
 git checkout -q -- .
-cp $SRC/demo_test.go router/zz_seeded_demo_test.go
-unshare -n sh -c "ip link set lo up; go test -vet=off -count=1 -timeout 10m -run '$PAT' ./router/ 2>&1" >/tmp/mutconf/$P-$M.without.log
+cp $SRC/demo_test.go $DIR/zz_seeded_demo_test.go
+unshare -n sh -c "ip link set lo up; go test -vet=off -count=1 -timeout 10m -run '$PAT' ./$DIR/ 2>&1" >/tmp/mutconf/$P-$M.without.log
 if grep -q "^ok" /tmp/mutconf/$P-$M.without.log; then WITHOUT=pass; else WITHOUT=fail; fi
 res "suite=ok demo_with_patch=$WITH demo_without_patch=$WITHOUT"
 if [ $WITH = fail ] && [ $WITHOUT = pass ]; then
@@ -43,6 +48,7 @@ if [ $WITH = fail ] && [ $WITHOUT = pass ]; then
   cp /tmp/mutconf/$P-$M.patch $OUT/patch.diff
   cp $SRC/demo_test.go $OUT/demo_test.go
   cp $SRC/notes.md $OUT/notes.md 2>/dev/null
+  cp /tmp/mutconf/$P-$M.dir $OUT/demo_dir.txt
   echo "CONFIRMED" > $OUT/.confirmed
 fi
 cd /
